@@ -150,6 +150,7 @@ def reset_path(E, trace):
     E.randcalls = 0
     E.observations = []
     E.range_cap = None
+    E.loop_bound = None
     E.pc_hash = 0
 
 
